@@ -154,6 +154,35 @@ def iarr(v):
     return np.array(v, dtype=np.int64)
 
 
+# --------------------------------------------------------------------------- memory layouts
+
+FILL = -7.25  # value of the cells of an owning buffer that lie outside the caller's view
+
+
+def lay_out(a, layout):
+    """(owning buffer, the array the caller passes) for one of the memory layouts:
+    c = C-contiguous, f = Fortran order (rows are strided views), strided = every second row /
+    element of a larger buffer, cols = the leading columns of a wider buffer."""
+    a = np.array(a, dtype=np.float64)
+    if layout == "f" and a.ndim == 2:
+        b = np.asfortranarray(a)
+        return b, b
+    if layout == "strided":
+        if a.ndim == 2:
+            base = np.full((2 * a.shape[0], a.shape[1]), FILL)
+            base[::2] = a
+            return base, base[::2]
+        base = np.full(2 * a.shape[0] + 1, FILL)
+        base[1::2] = a
+        return base, base[1::2]
+    if layout == "cols" and a.ndim == 2:
+        base = np.full((a.shape[0], a.shape[1] + 2), FILL)
+        base[:, : a.shape[1]] = a
+        return base, base[:, : a.shape[1]]
+    return a, a
+
+
+
 # --------------------------------------------------------------------------- digests
 
 
